@@ -2,14 +2,16 @@
 # neutral.sh: apply each semantics-preserving patch in neutral/ to /repo, run the checks of the properties it touches,
 # expect exit 0 (no alarm) - exit 2 (undecided) is reported separately. Restores /repo after each.
 cd /verif
+NOUT=$(mktemp -d /tmp/neutral-out.XXXXXX)
 declare -A PROPS=( [N1]="C04 C08" [N2]="C03 C07" [N3]="C10" [N6]="C06" [N8]="C08 C01" [N9]="C15" [N10]="C14" [N11]="C16 C15" [N12]="C12" [N13]="C18 C05" [N14]="C17 C05" [N15]="C05 C08" [N16]="C15" [N17]="C16" [N18]="C11 C04" )
 for f in neutral/*.diff; do
   n=$(basename $f .diff)
   git -C /repo apply /verif/$f || { echo "$n: patch does not apply"; continue; }
   ( cd /repo && cargo build --offline 2>&1 | grep -qE "^error" && echo "$n: DOES NOT COMPILE" )
   for p in ${PROPS[$n]}; do
-    out=$(./check $p 2>&1); rc=$?
+    out=$(VERIF_OUT=$NOUT ./check $p 2>&1); rc=$?
     echo "$n $p rc=$rc $(echo "$out" | grep -E 'VIOLATION|UNDECIDED' | head -2 | cut -c1-200)"
   done
   git -C /repo checkout -- .
 done
+rm -rf $NOUT
